@@ -689,7 +689,18 @@ func (gen *Generator) GenerateCallBySymbol(sym *SexpSymbol, args []Sexp, orig Se
 
 	oldtail := gen.Tail
 	gen.Tail = false
-	if oldtail && sym.name == gen.funcname {
+	selfTail := oldtail && sym.name == gen.funcname
+	if selfTail {
+		// the jump bypasses CallFunction's arity check: only take it
+		// when the argument count fits, else make an ordinary call
+		// (which reports the arity error).
+		if known := gen.LookupKnownFunction(sym); known != nil && !known.user {
+			if (!known.varargs && len(args) != known.nargs) || (known.varargs && len(args) < known.nargs) {
+				selfTail = false
+			}
+		}
+	}
+	if selfTail {
 		err := gen.GenerateCallArgsForFunction(gen.LookupKnownFunction(sym), args)
 		if err != nil {
 			return err
